@@ -81,6 +81,11 @@ package rhp
 //@ func RPCFreeSectors props C10,C09
 //@   nopanic
 //@   requires t != nil && signer != nil
+// ... and they are the caller's indices sorted and then compacted, always (a list that merely looks
+// sorted may still carry duplicates): the slice on the wire is the result of slices.Compact applied
+// to the array slices.SortFunc sorted
+//@   ensures [normalised] called("WriteRequest") ==> called("Compact") && calledBefore("SortFunc", "Compact") && same(callarg("Compact", 0), callarg("SortFunc", 0))
+//@        && callarg("WriteRequest", 2).(*rhp4.RPCFreeSectorsRequest).Indices == callres("Compact")
 //@   ensures [no-invented-index] called("WriteRequest") ==> (forall k int :: { callarg("WriteRequest", 2).(*rhp4.RPCFreeSectorsRequest).Indices[k] } 0 <= k && k < len(callarg("WriteRequest", 2).(*rhp4.RPCFreeSectorsRequest).Indices) ==>
 //@        (exists j int :: 0 <= j && j < len(indices) && callarg("WriteRequest", 2).(*rhp4.RPCFreeSectorsRequest).Indices[k] == old(indices[j])))
 //@   ensures [proof] result1 == nil ==> called("VerifyFreeSectorsProof") && callres("VerifyFreeSectorsProof")
